@@ -155,6 +155,9 @@ func (r *Report) Finish() int {
 			}
 		}
 		dir := filepath.Join(r.VerifDir, "replays", r.Prop)
+		if d := os.Getenv("VERIF_OUT_DIR"); d != "" {
+			dir = filepath.Join(d, "replays", r.Prop)
+		}
 		_ = os.MkdirAll(dir, 0o755)
 		path := filepath.Join(dir, classHash(f.Class)+".json")
 		b, _ := json.MarshalIndent(f, "", " ")
@@ -194,9 +197,13 @@ func (r *Report) Finish() int {
 		"wall_s":      time.Since(r.Start).Seconds(),
 		"violations":  nviol,
 	}
-	_ = os.MkdirAll(filepath.Join(r.VerifDir, "evidence"), 0o755)
+	evDir := filepath.Join(r.VerifDir, "evidence")
+	if d := os.Getenv("VERIF_OUT_DIR"); d != "" {
+		evDir = filepath.Join(d, "evidence")
+	}
+	_ = os.MkdirAll(evDir, 0o755)
 	b, _ := json.MarshalIndent(ev, "", " ")
-	if err := os.WriteFile(filepath.Join(r.VerifDir, "evidence", r.Prop+".json"), b, 0o644); err != nil {
+	if err := os.WriteFile(filepath.Join(evDir, r.Prop+".json"), b, 0o644); err != nil {
 		fmt.Fprintln(os.Stderr, "cannot write evidence:", err)
 		return 2
 	}
